@@ -188,7 +188,7 @@ func evalC03versions(src []byte, cfg string) (o Outcome) {
 	}
 	want := map[string][]bool{ // 5.6, 7.2, 7.3, 7.4 accepted?
 		"7only": {false, true, true, true}, "73heredoc": {false, false, true, true}, "valid": {true, true, true, true}, "valid7": {false, true, true, true},
-	}[cfg]
+	}[strings.SplitN(cfg, ":", 2)[0]]
 	vs := [][2]uint64{{5, 6}, {7, 2}, {7, 3}, {7, 4}}
 	for i, v := range vs {
 		n, d := errsUnder(v[0], v[1])
@@ -364,6 +364,17 @@ func oracleC03() *Result {
 	}
 	for _, s := range heredoc73 {
 		tasks = append(tasks, Task{Oracle: "C03v", Cfg: "73heredoc", Src: []byte(s), Tag: "heredoc-7.3"})
+	}
+	// number and string spellings (the scanner's letter-case and prefix handling)
+	for _, s := range []string{"echo 0X1F + 0x1f + 0XaB;", "echo 0B11 + 0b11;", "echo 1E3 + 1e3 + 1.5E-2;", "echo b\"abc\" . B\"abc\";", "echo b<<<A\nx\nA;\n", "echo B<<<'A'\nx\nA;\n",
+		"$a = 017 + 0 + 00;", "echo \"$a[0X1F] $a[0B1]\";"} {
+		tasks = append(tasks, Task{Oracle: "C03v", Cfg: "valid", Src: []byte("<?php " + s), Tag: "literal-spelling"})
+	}
+	for _, s := range []string{"echo b'abc';", "echo B'abc' . 'x';"} {
+		tasks = append(tasks, Task{Oracle: "C03v", Cfg: "valid:binary-single", Src: []byte("<?php " + s), Tag: "literal-spelling"})
+	}
+	for _, s := range []string{"echo b\"a$x\";", "echo B\"{$x}\";"} {
+		tasks = append(tasks, Task{Oracle: "C03v", Cfg: "valid:binary-template", Src: []byte("<?php " + s), Tag: "literal-spelling"})
 	}
 	for _, s := range validStmts {
 		tasks = append(tasks, Task{Oracle: "C03v", Cfg: "valid", Src: []byte("<?php " + s), Tag: "valid"})
